@@ -459,9 +459,17 @@ _public_ int m_mod_register(const char *name, m_mod_t **mod_ref, const m_mod_hoo
             M_DEBUG("Module with same name already registered in context.");
             return -EEXIST;
         }
+        /* Keep ctx alive: old module's on_stop() may deregister it */
+        m_mem_ref(c);
         ret = mod_deregister(&old_mod, false);
+        const bool ctx_gone = m_ctx() != c;
+        m_mem_unref(c);
         if (ret != 0) {
             return ret;
+        }
+        if (ctx_gone) {
+            M_DEBUG("Context was deregistered while replacing module.");
+            return -EPIPE;
         }
     }
 
